@@ -128,6 +128,8 @@ def features(g):
 # XML
 
 def graph_lexicon_xml(lexid, g, with_words=True):
+    if g.get('split'):
+        return graph_base_xml(lexid, g)
     n = g['n']
     b = [f'<Lexicon id="{lexid}" label="{lexid}" language="en" email="a@b.c" license="l" version="1">\n']
     words = g.get('words') or {}
@@ -156,6 +158,65 @@ def graph_lexicon_xml(lexid, g, with_words=True):
     return ''.join(b)
 
 
+def _rel_lists(g):
+    """per node: the relations written on it (hypernym edges from it, hyponym back-links to it)"""
+    n = g['n']
+    rels = [[] for _ in range(n)]
+    for s_, t_, ty in g['edges']:
+        rels[s_].append((t_, ty))
+    for s_, t_, ty in g['edges']:
+        rels[t_].append((s_, 'instance_hyponym' if ty == 'instance_hypernym' else 'hyponym'))
+    return rels
+
+
+def graph_base_xml(lexid, g):
+    """nodes below g['split'] with the relations among them: the base lexicon of a taxonomy that continues in an extension"""
+    k = g['split']
+    rels = _rel_lists(g)
+    b = [f'<Lexicon id="{lexid}" label="{lexid}" language="en" email="a@b.c" license="l" version="1">\n']
+    kk = 0
+    for w, nodes in (g.get('words') or {}).items():
+        bypos = {}
+        for nd in nodes:
+            if nd < k:
+                bypos.setdefault(g['pos'][nd], []).append(nd)
+        for p, nds in bypos.items():
+            kk += 1
+            b.append(f'<LexicalEntry id="{lexid}-w{kk}"><Lemma writtenForm={quoteattr(w)} partOfSpeech="{p}"/>')
+            for nd in nds:
+                b.append(f'<Sense id="{lexid}-w{kk}-s{nd}" synset="{lexid}-{nd}"/>')
+            b.append('</LexicalEntry>\n')
+    for i in range(k):
+        r = ''.join(f'<SynsetRelation target="{lexid}-{t}" relType="{ty}"/>' for t, ty in rels[i] if t < k)
+        b.append(f'<Synset id="{lexid}-{i}" ili="" partOfSpeech="{g["pos"][i]}">{r}</Synset>\n')
+    b.append('</Lexicon>\n')
+    return ''.join(b)
+
+
+def graph_extension_xml(lexid, g):
+    """nodes from g['split'] on as new synsets of an extension; every relation that touches one of them is the
+    extension's (on a new synset, or on the base synset named as ExternalSynset)"""
+    k, n = g['split'], g['n']
+    rels = _rel_lists(g)
+    b = [f'<LexiconExtension id="{lexid}x" label="{lexid}x" language="en" email="a@b.c" license="l" version="1">\n',
+         f'<Extends id="{lexid}" version="1"/>\n']
+    for i in range(k):
+        r = ''.join(f'<SynsetRelation target="{lexid}-{t}" relType="{ty}"/>' for t, ty in rels[i] if t >= k)
+        touched = r or any(t == i for j in range(k, n) for t, _ in rels[j])
+        if touched:
+            b.append(f'<ExternalSynset id="{lexid}-{i}">{r}</ExternalSynset>\n')
+    for i in range(k, n):
+        r = ''.join(f'<SynsetRelation target="{lexid}-{t}" relType="{ty}"/>' for t, ty in rels[i])
+        b.append(f'<Synset id="{lexid}-{i}" ili="" partOfSpeech="{g["pos"][i]}">{r}</Synset>\n')
+    b.append('</LexiconExtension>\n')
+    return ''.join(b)
+
+
+def pack_extensions(graphs, prefix='g'):
+    body = ''.join(graph_extension_xml(f'{prefix}{k}', g) for k, g in enumerate(graphs) if g.get('split'))
+    return (HDR + body + '</LexicalResource>\n') if body else None
+
+
 def pack(graphs, prefix='g'):
     return HDR + ''.join(graph_lexicon_xml(f'{prefix}{k}', g) for k, g in enumerate(graphs)) + '</LexicalResource>\n'
 
@@ -178,7 +239,7 @@ def _frac(x):
 def observe_graph(wn, lexid, g, lchD):
     import wn.taxonomy as tax
     import wn.similarity as sim
-    w = wn.Wordnet(lexicon=f'{lexid}:1')
+    w = wn.Wordnet(lexicon=f'{lexid}:1' + (f' {lexid}x:1' if g.get('split') else ''))
     n = g['n']
     ss = [w.synset(f'{lexid}-{i}') for i in range(n)]
     ix = lambda s: _idx(lexid, s)
@@ -312,6 +373,11 @@ def _impl_chunk(args):
         f = d / 'graphs.xml'
         f.write_text(pack(chunk), encoding='utf-8')
         wn.add(f, progress_handler=None)
+        xt = pack_extensions(chunk)
+        if xt:
+            fx = d / 'graph-extensions.xml'
+            fx.write_text(xt, encoding='utf-8')
+            wn.add(fx, progress_handler=None)
         res = []
         for k, g in enumerate(chunk):
             try:
@@ -475,8 +541,15 @@ def _impl_ic_chunk(chunk):
     d = wnenv.workdir()
     try:
         f = d / 'graphs.xml'
-        f.write_text(pack([sc['graph'] for sc in chunk]), encoding='utf-8')
+        full = [sc.get('xgraph') or sc['graph'] for sc in chunk]
+        f.write_text(pack(full), encoding='utf-8')
         wn.add(f, progress_handler=None)
+        xt = pack_extensions(full)
+        if xt:
+            # extensions that are installed but not selected: the Wordnet handed to compute() is the base alone
+            fx = d / 'graph-extensions.xml'
+            fx.write_text(xt, encoding='utf-8')
+            wn.add(fx, progress_handler=None)
         res = []
         for k, sc in enumerate(chunk):
             try:
